@@ -15,6 +15,7 @@ keeps id / ty / sp and records the rule in `nf`):
   NF6  0..n, 0..=n                                       -> ..n, ..=n
   NF7  x = x + e  (and - * / % & | ^ << >>)              -> x += e
   NF8  a named constant array of integers                -> the array literal
+  NF10 let f = match s { A => e1, .. }; if f { X }  (f used once) -> match s { A => if e1 { X }, .. }
 """
 from . import hir as H
 
@@ -204,7 +205,95 @@ class Normalizer:
         return n
 
 
+def _uses(body):
+    cnt = {}
+    stack = [body]
+    while stack:
+        x = stack.pop()
+        if isinstance(x, dict):
+            if x.get("k") == "Local" and "lid" in x:
+                cnt[x["lid"]] = cnt.get(x["lid"], 0) + 1
+            for k, v in x.items():
+                if k in ("sp", "lit", "val"):
+                    continue
+                if isinstance(v, (dict, list)):
+                    stack.append(v)
+        elif isinstance(x, list):
+            stack.extend(x)
+    return cnt
+
+
+def _peel_block(n):
+    while isinstance(n, dict) and n.get("k") == "Block" and not n.get("stmts") and n.get("expr") is not None:
+        n = n["expr"]
+    return n
+
+
+def _flag_from_match(body):
+    """NF10  let f = match s { A => e1, B => e2 };  if f { X }      (f a bool used nowhere else)
+             ->  match s { A => if e1 { X }, B => if e2 { X } }      (`if false` arms become empty, `if true` arms X)
+    the spelling with the flag and the spelling with the test inside each arm become the same tree."""
+    import copy
+    uses = _uses(body)
+    stack = [body]
+    while stack:
+        x = stack.pop()
+        if isinstance(x, list):
+            stack.extend(x)
+            continue
+        if not isinstance(x, dict):
+            continue
+        if x.get("k") == "Block" and isinstance(x.get("stmts"), list):
+            st = x["stmts"]
+            follow = st[1:] + ([{"k": "ExprStmt", "e": x["expr"], "tail": True}] if x.get("expr") is not None else [])
+            i = 0
+            while i < len(st):
+                a = st[i]
+                nxt = follow[i] if i < len(follow) else None
+                ok = a.get("k") == "LetStmt" and a.get("pat", {}).get("k") == "Bind" and not a["pat"].get("mut") and \
+                    a.get("els") is None and isinstance(a.get("init"), dict) and nxt is not None and nxt.get("k") == "ExprStmt"
+                if ok:
+                    m = _peel_block(a["init"])
+                    iff = _peel_block(nxt.get("e"))
+                    lid = a["pat"].get("lid")
+                    ok = m.get("k") == "Match" and m.get("src", "match") == "match" and m.get("ty") == "bool" and \
+                        isinstance(iff, dict) and iff.get("k") == "If" and iff.get("else") is None and \
+                        _peel_block(iff["cond"]).get("k") == "Local" and _peel_block(iff["cond"]).get("lid") == lid and uses.get(lid) == 1
+                if ok:
+                    new_arms = []
+                    for arm in m["arms"]:
+                        v = _peel_block(arm["body"])
+                        lv = v["lit"].get("bool") if isinstance(v, dict) and v.get("k") == "Lit" and "bool" in v.get("lit", {}) else None
+                        if lv is False:
+                            nb = {"k": "Block", "stmts": [], "ty": "()", "sp": arm["body"].get("sp"), "nf": "NF10"}
+                        elif lv is True:
+                            nb = copy.deepcopy(iff["then"])
+                        else:
+                            nb = {"k": "Block", "stmts": [{"k": "ExprStmt", "semi": False, "e": {
+                                "k": "If", "cond": arm["body"], "then": copy.deepcopy(iff["then"]), "ty": "()",
+                                "sp": arm["body"].get("sp"), "nf": "NF10"}}], "ty": "()", "sp": arm["body"].get("sp"), "nf": "NF10"}
+                        new_arms.append(dict(arm, body=nb))
+                    nm = dict(m, arms=new_arms, ty="()", nf="NF10")
+                    repl = {"k": "ExprStmt", "e": nm, "semi": True}
+                    if nxt.get("tail"):
+                        x["expr"] = None
+                        del x["expr"]
+                        st[i] = repl
+                    else:
+                        st[i] = repl
+                        del st[i + 1]
+                        follow = st[1:] + ([{"k": "ExprStmt", "e": x["expr"], "tail": True}] if x.get("expr") is not None else [])
+                i += 1
+        for k, v in x.items():
+            if k in ("sp", "lit", "val"):
+                continue
+            if isinstance(v, (dict, list)):
+                stack.append(v)
+
+
 def normalize(bodies, consts):
     nz = Normalizer(consts)
     for b in bodies:
         nz.body(b)
+        if b.get("body") is not None:
+            _flag_from_match(b["body"])
